@@ -1,5 +1,7 @@
 mod cmd_backend;
 mod cmd_stages;
+mod cmd_check;
+mod cmd_check_gen;
 mod consts;
 mod pipe;
 mod rec;
@@ -72,6 +74,7 @@ fn main() {
             cmd_backend::cmd_codegen(which, num(2, 1), num(3, 0) as usize, &mut *out, &args[5.min(args.len())..]);
         }
         "pm" => cmd_pm(num(2, 1), num(3, 100) as usize, &mut *out),
+        "check" => cmd_check::cmd_check(num(2, 1), num(3, 0) as usize, args.get(5..).unwrap_or(&[]), &mut *out),
         "stages" => cmd_stages::cmd_stages(num(2, 1), num(3, 0) as usize, args.get(5..).unwrap_or(&[]), &mut *out),
         c => { eprintln!("unknown command {c}"); std::process::exit(2); }
     }
